@@ -1,7 +1,7 @@
 # CPU_OFF and COMMON_ASSUME are injected by props.py
 SPEC = {
     "bins": [
-        {"name": "c20", "pkg": "./zz_verif/c20", "run": "^(TestC20(Predicates|Marshal|Cycle|AllBitFlips|Soup|Golden|RefSelftest|Reuse|Lengths|LongNames)|FuzzC20)", "shards": {"quick": 4, "thorough": 16}},
+        {"name": "c20", "pkg": "./zz_verif/c20", "run": "^(TestC20(Predicates|Marshal|Cycle|AllBitFlips|Soup|Golden|RefSelftest|Reuse|Lengths|LongNames|Identifiers|IdentSweep)|FuzzC20)", "shards": {"quick": 4, "thorough": 16}},
         {"name": "c20conc", "pkg": "./zz_verif/c20", "run": "^TestC20Conc$", "shards": {"quick": 1, "thorough": 4}},
         {"name": "c20concrace", "pkg": "./zz_verif/c20", "run": "^TestC20Conc$", "race": True, "shards": {"quick": 1, "thorough": 2}},
         {"name": "c20fuzz", "pkg": "./zz_verif/c20", "fuzz": "FuzzC20PolicyFromString", "fuzztime": "45s", "tiers": ["thorough"], "shards": {"thorough": 1}},
